@@ -247,6 +247,63 @@ theorem listItemOpen_declines (q : Nat) {sA : St} {a : Option Nat × PState} {sA
   cases e
   exact ⟨rfl, rfl⟩
 
+/-! ### the setext heading parser declines on sources in which no position starts a setext heading bar -/
+
+/-- the peeked line of run A is no bar (or the matcher panics on it) -/
+theorem noBar_view {src k ls p} (hnb : NoBar src) (hi : InL src k ls p) (c : UInt8) :
+    matchesSetextHeadingBar ((viewA src ls p).getD []) ≠ .ok (c, true) := by
+  unfold viewA
+  by_cases hp : p < lineEnd src ls
+  · rw [if_pos hp]
+    have := hnb p (hi.lt_iff.mpr hp) c
+    rw [hi.lineEnd_eq] at this
+    exact this
+  · rw [if_neg hp]
+    simp only [Option.getD_none, matchesSetextHeadingBar_nil]
+    intro h; cases h
+
+/-- `setextHeadingParser.Open` declines, leaving the node store and the context alone -/
+theorem setextOpen_declines {src k ls p} (hnb : NoBar src) (q : Nat) {sA sB : St} {a : Option Nat × PState} {sA' : St}
+    (h : SR src k ls p sA sB) (e : bpOpen .setext q sA = .ok (a, sA')) :
+    a.1 = none ∧ sA'.nodes = sA.nodes ∧ sA'.pc = sA.pc := by
+  change setextOpen q sA = .ok (a, sA') at e
+  unfold setextOpen at e
+  obtain ⟨last, s0, e0, e⟩ := bind_inv_o e
+  rw [lastOpenedBlock_eq] at e0
+  cases e0
+  cases hl : sA.pc.opened.getLast? with
+  | none =>
+    rw [hl] at e
+    cases e
+    exact ⟨rfl, rfl, rfl⟩
+  | some lb =>
+    rw [hl] at e
+    dsimp only at e
+    obtain ⟨ln, s1, e1, e⟩ := bind_inv_o e
+    cases e1
+    split at e
+    · cases e
+      exact ⟨rfl, rfl, rfl⟩
+    · obtain ⟨x1, s3, e3, e⟩ := bind_inv_o e
+      obtain ⟨hn3, hp3⟩ := peekLine_keeps_ls e3
+      obtain ⟨y1, t1, _, hx1, _, _⟩ := peekLine_s2 h x1 s3 e3
+      subst hx1
+      simp only at e
+      obtain ⟨x2, s4, e4, e⟩ := bind_inv_o e
+      have hbar := noBar_view hnb h.r.inl
+      cases hm : matchesSetextHeadingBar ((viewA src ls p).getD []) with
+      | error x => rw [hm] at e4; cases e4
+      | ok v =>
+        obtain ⟨c, ok⟩ := v
+        rw [hm] at e4
+        cases e4
+        cases ok with
+        | true => exact absurd hm (hbar c)
+        | false =>
+          simp only [Bool.not_false, if_true] at e
+          cases e
+          exact ⟨rfl, hn3, hp3⟩
+
 /-- the unary facts `OT` hold for every source in which no position starts a list item -/
 theorem ot_all (src : Bytes) (hno : NoItem src) : OT src where
   para := fun _ _ _ q _ _ _ _ h hnb e => paragraphOpen_opens q h hnb e
@@ -257,5 +314,7 @@ theorem ot_all (src : Bytes) (hno : NoItem src) : OT src where
   ldecl := by
     intro bp hbp _ k ls p q sA sB a sA' h hu e
     cases bp <;> first | exact listOpen_declines hno q h e | exact listItemOpen_declines q hu e | cases hbp
+  sdecl := fun hnb _ _ _ q _ _ _ _ h e =>
+    ⟨(setextOpen_declines hnb q h e).1, (setextOpen_declines hnb q h e).2.1⟩
 
 end GM.Blocks
